@@ -80,6 +80,35 @@ class Check:
     def rule(self, text):
         self.rule_text.append(text)
 
+    def include(self, module_name, ctx, prefix, only=None, why=""):
+        """Shared rule instances: run the rules of another property and adopt those of its obligations whose
+        rule id is in `only` (all when None) under `<prefix>/<rule id>`.  Used where this property's behaviour
+        rests on a clause that is decided by another property's rule (e.g. the disassembly round trip rests on
+        decode/encode agreement): a violation of that clause is a violation here too."""
+        import importlib
+        if getattr(self, "_is_sub", False):
+            return 0            # includes are one level deep: an included module's own includes are not followed
+        mod = importlib.import_module(module_name)
+        sub = Check(module_name, self.tier, getattr(mod, "LEVEL", "other"), self.repo)
+        sub._is_sub = True
+        try:
+            mod.run(sub, ctx)
+        except Exception as ex:
+            self.fail(prefix, "include:" + module_name, "obligation not established: rules of %s could not be evaluated: %s" % (module_name, ex))
+            return 0
+        n = 0
+        for (r, k, ok, d, w) in sub.obls:
+            if only is not None and r not in only:
+                continue
+            n += 1
+            self.obls.append(("%s/%s" % (prefix, r), k, ok, d, w))
+            self.evaluations += 1
+            if (r, k) in sub.nontrivial:
+                self.nontrivial.add(("%s/%s" % (prefix, r), k))
+        self.floor(prefix, "shared instances from " + module_name, n, 1)
+        self.rule_text.append("%s: shared rule instances of %s %s%s" % (prefix, module_name, sorted(only) if only else "(all)", (" - " + why) if why else ""))
+        return n
+
     # ------------------------------------------------------------------ finishing
     def finish(self):
         known = load_known(self.pid)
